@@ -923,6 +923,57 @@ def hunt_f3(check, runs=40):
     return out
 
 
+
+# ---------------------------------------------------------------------------
+# finding F8: deadlock with many spurious candidates (rejected candidate at the minimum
+# of emit_q while out_slots <= EMIT_THRESH)
+# ---------------------------------------------------------------------------
+def gen_magic_bitmaps(rng, nstreams=600):
+    """Valid concatenated streams whose symbol bitmaps contain the 48-bit block magic
+    (rows 0x3141 0x5926 0x5359): one spurious candidate per block."""
+    import bz2
+    rows = [0x3141, 0x5926, 0x5359]
+    alpha = []
+    for r, row in enumerate(rows):
+        for b in range(16):
+            if row & (0x8000 >> b):
+                alpha.append(0x40 + 16 * r + b)
+    comp = bytearray()
+    plain = bytearray()
+    for _ in range(nstreams):
+        n = rng.range(40, 400)
+        d = bytes(alpha) + bytes(rng.choice(alpha) for _ in range(n))
+        comp += bz2.compress(d, 9)
+        plain += d
+    return Crafted("magicmap-%d" % nstreams, bytes(comp), bytes(plain), True, "magicmap")
+
+
+def hunt_deadlock(check, attempts=6, nstreams=600):
+    """Bounded attempts to observe the hang; absence is not an error."""
+    from concurrent.futures import ThreadPoolExecutor
+    exe = vlib.build_lbzip2("rel")
+    c = gen_magic_bitmaps(check.rng, nstreams)
+
+    def one(i):
+        rc, o, e = run_lbzip2(exe, c.data, ["-dc", "-n%d" % [4, 8, 3, 16][i % 4]], timeout=25)
+        return i, rc, o
+    with ThreadPoolExecutor(max_workers=max(2, vlib.NCPU // 2)) as ex:
+        res = list(ex.map(one, range(attempts)))
+    hung = [i for i, rc, o in res if rc == 124]
+    wrong = [i for i, rc, o in res if rc != 124 and (rc != 0 or o != c.plain)]
+    out = []
+    if hung:
+        out.append(Violation("c11x:deadlock-spurious-candidates",
+                             "valid input (%d small streams whose symbol bitmaps contain the block magic): `lbzip2 -dc -n%d` does not "
+                             "terminate (%d of %d runs hung for 25 s; model: SchedX/XF8Refuted.v C11x_progress_refuted)"
+                             % (nstreams, [4, 8, 3, 16][hung[0] % 4], len(hung), attempts),
+                             {"input_hex": c.data.hex(), "n": [4, 8, 3, 16][hung[0] % 4], "flavor": "rel", "kind": "deadlock"}))
+    if wrong:
+        out.append(Violation("magicmap-wrong-result", "valid input with magics in the symbol bitmaps decoded wrongly",
+                             {"input_hex": c.data.hex(), "kind": "run"}))
+    return out
+
+
 # ---------------------------------------------------------------------------
 # entry points for C11 / C13 (decompression part)
 # ---------------------------------------------------------------------------
@@ -987,6 +1038,7 @@ def direct_x(check, leaks=False):
     check.notes.append("direct_x: peak live heap by worker count (decompression): %s" % peaks)
     if leaks:
         viols += hunt_f3(check, runs=24 if check.tier == "quick" else 100)
+    viols += hunt_deadlock(check, attempts=6 if check.tier == "quick" else 24)
     return viols
 
 
